@@ -271,6 +271,42 @@ func c01Scenarios(tier string) []*Scenario {
 				return "", "", deliveredOutcome(x.Rec.Log)
 			},
 		})
+		// C2: a pass is delivering a live subscope with two counters while the application records more on it, closes it
+		// and requests it again: the report made on re-request overlaps the pass' report of the very same scope
+		out = append(out, &Scenario{
+			Property: "C01", Name: "C2-pass-overlaps-close-and-reacquire-" + b2s(!cached),
+			Body: func(x *Run) {
+				rec := &Recorder{}
+				x.Rec = rec
+				root, _ := tally.VerifNewRootScope(scopeOpts(rec, !cached, false), 0, 1)
+				tags := map[string]string{"k": "v"}
+				sub := root.Tagged(tags)
+				c1, c2 := sub.Counter("c1"), sub.Counter("c2")
+				c1.Inc(1)
+				c2.Inc(2)
+				t2 := rt.GoNamed("pass", func() { tally.VerifReportOnce(root) })
+				t1 := rt.GoNamed("cycle", func() {
+					c1.Inc(4)
+					c2.Inc(8)
+					_ = sub.(interface{ Close() error }).Close()
+					s2 := root.Tagged(tags)
+					s2.Counter("c1").Inc(16)
+				})
+				t1.Join()
+				t2.Join()
+				tally.VerifReportOnce(root)
+				x.Vals["quiet"] = len(rec.Log)
+				tally.VerifReportOnce(root)
+			},
+			Check: func(x *Run, o *rt.Outcome) (string, string, string) {
+				want := map[string]int64{`c1{"k":"v"}`: 21, `c2{"k":"v"}`: 10}
+				cl, d := counterOracle(x.Rec.Log, want, x.Vals["quiet"].(int), true)
+				if cl != "" {
+					return cl, d, "viol"
+				}
+				return "", "", deliveredOutcome(x.Rec.Log)
+			},
+		})
 	}
 	return out
 }
